@@ -49,9 +49,6 @@ theorem pdd_per_junction_override (own : Option Rat) (glob : Rat) :
 
 /-! ### 2. what a row evaluates to (any leaf values, any junction) -/
 
-theorem isOne_ofBool (b : Bool) : realOps.isOne (realOps.ofBool b) = b := by
-  cases b <;> simp [Ops.ofBool]
-
 /-- residual of the row = demand − requested · (delivered fraction at the gauge pressure `head − elevation`) -/
 theorem pddRow_eval (env : Env ℝ) (ix : PddIx) (delta slope e : ℚ) :
     eval realOps env (pddRow ix delta slope e) =
